@@ -6,6 +6,10 @@
 (*                                                                                                           *)
 (* Environment: for the first KW write calls one of  ok (everything asked for) | sh n (short: 1, half,       *)
 (* all-1) | ei (EINTR) | ea (EAGAIN);  for the first KR read calls  ok | sh n | ei.  Later calls are benign. *)
+(* Long transfers: instead of choosing the first K outcomes freely, the environment may follow a cyclic PATTERN     *)
+(* for the whole transfer (wp for write calls, rp for read calls; <<>> = no pattern), e.g. <<sh 5, ei>> = "5 bytes,     *)
+(* then an interrupted call" over and over: hundreds of faults spread over one transfer.  The properties do not         *)
+(* depend on the size.                                                                                                  *)
 (* The client has sent everything before the peer starts reading (single-threaded driver); the peer's last    *)
 (* read returns 0 (mode "eof": the client was closed) or fails with EAGAIN (mode "nbio").                    *)
 (*                                                                                                           *)
@@ -18,6 +22,7 @@ EXTENDS Integers, Sequences, TLC, Json
 CONSTANTS Lens,        \* payload lengths
           Modes,       \* subset of {"eof", "nbio"}
           KW, KR,      \* number of leading write / read calls whose outcome the environment chooses
+          WPats, RPats,   \* cyclic outcome patterns offered for a whole transfer; {<<>>} = none (free choice of the first K)
           Chunk,       \* read chunk of the descriptor reader (4096)
           SendMech, RecvMech,
           Obs(_)       \* observation of a completed behaviour
@@ -33,14 +38,15 @@ VARIABLES ph,          \* "send" | "recv" | "done"
           errno,       \* receiver: errno as left by the last FAILING call ("none" | "EINTR" | "EAGAIN")
           spin,        \* receiver: the loop went on after read() returned 0
           rcalls, rlen,
-          hw, hr       \* the schedule of this behaviour: outcomes of the scheduled calls, in order
-vars == <<ph, len, mode, off, retries, wcalls, sret, chan, bufsz, cur, total, stale, errno, spin, rcalls, rlen, hw, hr>>
+          hw, hr,      \* the schedule of this behaviour: outcomes of the scheduled calls, in order
+          wp, rp       \* the cyclic patterns of this behaviour (<<>> = none)
+vars == <<ph, len, mode, off, retries, wcalls, sret, chan, bufsz, cur, total, stale, errno, spin, rcalls, rlen, hw, hr, wp, rp>>
 
 Min(x, y) == IF x < y THEN x ELSE y
 \* the short counts offered for a call that could move r bytes: 1, half, all but one
 Shorts(r) == {n \in {1, r \div 2, r - 1} : n >= 1 /\ n < r}
 
-Init == /\ len \in Lens /\ mode \in Modes
+Init == /\ len \in Lens /\ mode \in Modes /\ wp \in WPats /\ rp \in RPats
         /\ ph = "send" /\ off = 0 /\ retries = 0 /\ wcalls = 0 /\ sret = FALSE /\ chan = 0
         /\ bufsz = Chunk /\ cur = 0 /\ total = 0 /\ stale = FALSE /\ errno = "none" /\ spin = FALSE
         /\ rcalls = 0 /\ rlen = 0 /\ hw = <<>> /\ hr = <<>>
@@ -50,13 +56,16 @@ Init == /\ len \in Lens /\ mode \in Modes
 \* what the call asks for: the as-built loop always offers the whole payload again, the repaired one the rest
 WReq == IF SendMech = "asbuilt" THEN len ELSE len - off
 \* outcomes the environment may choose for this call
-WOutcomes == IF wcalls < KW
+WOutcomes == IF wp # <<>>
+             THEN LET e == wp[(wcalls % Len(wp)) + 1] IN        \* pattern entry: ei | ea | ok | sh n (at most n bytes)
+                  {IF e[1] \in {"ei", "ea"} THEN e ELSE IF e[1] = "sh" THEN <<"sh", Min(e[2], WReq)>> ELSE <<"ok", WReq>>}
+             ELSE IF wcalls < KW
              THEN {<<"ok", WReq>>, <<"ei", 0>>, <<"ea", 0>>} \cup {<<"sh", n>> : n \in Shorts(WReq)}
              ELSE {<<"ok", WReq>>}
 SendCall(o) ==
     /\ ph = "send" /\ o \in WOutcomes
     /\ wcalls' = wcalls + 1
-    /\ hw' = IF wcalls < KW THEN Append(hw, o) ELSE hw
+    /\ hw' = IF wp = <<>> /\ wcalls < KW THEN Append(hw, o) ELSE hw
     /\ IF o[1] \in {"ei", "ea"}
        THEN \* both mechanisms: sleep a little longer each time and try again
             /\ retries' = retries + 1
@@ -70,12 +79,16 @@ SendCall(o) ==
                ELSE \* REPAIRED: carry on behind the bytes the kernel took until nothing is left
                     /\ sret' = (off + o[2] = len)
                     /\ ph' = IF off + o[2] = len THEN "recv" ELSE "send"
-    /\ UNCHANGED <<len, mode, bufsz, cur, total, stale, errno, spin, rcalls, rlen, hr>>
+    /\ UNCHANGED <<len, mode, bufsz, cur, total, stale, errno, spin, rcalls, rlen, hr, wp, rp>>
 
 ------------------------------------------------------------------------------------------
 (* receiver: one action per read() call; every call asks for Chunk bytes at the cursor *)
 Avail == Min(chan, Chunk)
-ROutcomes == IF rcalls < KR
+ROutcomes == IF rp # <<>>
+             THEN LET e == rp[(rcalls % Len(rp)) + 1] IN
+                  {IF e[1] = "ei" THEN e ELSE IF chan = 0 THEN <<"end", 0>>
+                   ELSE IF e[1] = "sh" THEN <<"sh", Min(e[2], Avail)>> ELSE <<"ok", Avail>>}
+             ELSE IF rcalls < KR
              THEN (IF chan > 0 THEN {<<"ok", Avail>>} \cup {<<"sh", n>> : n \in Shorts(Avail)} ELSE {<<"end", 0>>})
                   \cup {<<"ei", 0>>}
              ELSE (IF chan > 0 THEN {<<"ok", Avail>>} ELSE {<<"end", 0>>})
@@ -84,7 +97,7 @@ Finish(l) == /\ ph' = "done" /\ rlen' = l
 RecvCall(o, moved) ==
     /\ ph = "recv" /\ o \in ROutcomes
     /\ rcalls' = rcalls + 1
-    /\ hr' = IF rcalls < KR THEN Append(hr, o) ELSE hr
+    /\ hr' = IF rp = <<>> /\ rcalls < KR THEN Append(hr, o) ELSE hr
     /\ IF RecvMech = "asbuilt"
        THEN \* AS BUILT:  for (p = s; (n = read(fd, p, 4096)) > 0 || errno == EINTR;) { size += n; s = REALLOC(s, size); p += n; }
             \*            len = size - 4096
@@ -117,10 +130,10 @@ RecvCall(o, moved) ==
                    /\ Finish(total)
                    /\ errno' = IF mode = "nbio" THEN "EAGAIN" ELSE errno
                    /\ UNCHANGED <<chan, total, cur, bufsz, stale, spin>>
-    /\ UNCHANGED <<len, mode, off, retries, wcalls, sret, hw>>
+    /\ UNCHANGED <<len, mode, off, retries, wcalls, sret, hw, wp, rp>>
 
 Done == /\ ph = "done"
-        /\ Obs([len |-> len, mode |-> mode, w |-> hw, r |-> hr, send |-> sret, rlen |-> rlen,
+        /\ Obs([len |-> len, mode |-> mode, w |-> hw, r |-> hr, wp |-> wp, rp |-> rp, send |-> sret, rlen |-> rlen,
                 wcalls |-> wcalls, rcalls |-> rcalls, retries |-> retries])
         /\ UNCHANGED vars
 
@@ -132,7 +145,7 @@ Spec == Init /\ [][Next]_vars
 ------------------------------------------------------------------------------------------
 (* properties *)
 TypeOK == /\ ph \in {"send", "recv", "done"} /\ off \in 0 .. len /\ chan \in 0 .. len
-          /\ wcalls >= 0 /\ rcalls >= 0 /\ retries <= KW
+          /\ wcalls >= 0 /\ rcalls >= 0 /\ retries <= wcalls
 \* every read() writes inside the block the object owns
 CursorInsideBuffer == (ph = "recv") => (~stale /\ cur >= 0 /\ cur + Chunk <= bufsz)
 \* there is always room for a full chunk behind the data already stored
@@ -146,6 +159,6 @@ SendCompleteMeansAll == (ph # "send") => (sret /\ off = len)
 \* at completion: received = sent
 ReceivedEqualsSent == (ph = "done") => (sret /\ total = len /\ rlen = len /\ chan = 0)
 \* every schedule runs to completion within the obvious call budget (no livelock)
-CallBudget == /\ wcalls <= KW + len
-              /\ rcalls <= KR + len + 1
+CallBudget == /\ wcalls <= KW + (len + 1) * (Len(wp) + 1)
+              /\ rcalls <= KR + (len + 1) * (Len(rp) + 1) + 1
 ================================================================================
